@@ -62,11 +62,11 @@ theorem flush_first_round (c : Cfg) (f : Nat) (w : World) (he : w.events ≠ [])
 /-- **C04 (each queued watcher once).**  From an empty queue, whatever happens, no watcher is
 ever queued twice — so a round invokes each watcher at most once. -/
 theorem queue_never_holds_a_watcher_twice (c : Cfg) (f : Nat) (call : Call) (w : World)
-    (hq : (w.queued.map (·.id)).Nodup) (h : (run c f call w).1 ≠ .oof) :
-    ((run c f call w).2.1.queued.map (·.id)).Nodup := nodupQ c f call w h hq
+    (hq : (w.queued.map (·.uid)).Nodup) (h : (run c f call w).1 ≠ .oof) :
+    ((run c f call w).2.1.queued.map (·.uid)).Nodup := nodupQ c f call w h hq
 
-theorem round_order_has_no_duplicates (l : List Watcher) (h : (l.map (·.id)).Nodup) :
-    ((sortByPrec l).map (·.id)).Nodup := ((sortByPrec_perm l).map _).nodup_iff.2 h
+theorem round_order_has_no_duplicates (l : List Watcher) (h : (l.map (·.uid)).Nodup) :
+    ((sortByPrec l).map (·.uid)).Nodup := ((sortByPrec_perm l).map _).nodup_iff.2 h
 
 /-- the round order is ascending precedence, registration (queueing) order among equals -/
 theorem round_in_precedence_order (l : List Watcher) :
